@@ -169,6 +169,23 @@ def property_violations(pid, L, view, g) -> list[str]:
         for n in impl_nodes:
             if g.get_node_by_id(n.id) is not n: out.append(f'lookup by id {n.id} does not return the node')
             if names_unique and g.get_node_by_full_name(n.full_name) is not n: out.append(f'lookup by full name {n.full_name} does not return the node')
+    if pid == 'C09':
+        inside = {id(n) for n in impl_nodes}
+        for n in impl_nodes:
+            for c in n.children:
+                if id(c) not in inside: out.append('a child reference points to a node that is not in the graph')
+                elif sum(1 for x in n.children if x is c) != sum(1 for p in c.parents if p is n):
+                    out.append('child references are not mirrored one for one by parent references')
+            for p in n.parents:
+                if id(p) not in inside: out.append('a parent reference points to a node that is not in the graph')
+                elif sum(1 for x in n.parents if x is p) != sum(1 for c in p.children if c is n):
+                    out.append('parent references are not mirrored one for one by child references')
+            if g.get_node_by_id(n.id) is not n: out.append('lookup by id does not return the node')
+        if len(g._id_to_node) != len(impl_nodes): out.append('the id index holds entries for nodes that are not in the graph')
+        if len({a[1] for a in view[0]}) == len(view[0]):
+            if len(g._full_name_to_node) != len(impl_nodes): out.append('the full-name index holds entries for nodes that are not in the graph')
+            for n in impl_nodes:
+                if g.get_node_by_full_name(n.full_name) is not n: out.append('lookup by full name does not return the node')
     if pid == 'C01':
         if len({a[1] for a in view[0]}) != len(view[0]):
             return out
@@ -184,9 +201,11 @@ def property_violations(pid, L, view, g) -> list[str]:
             if not (lo_k <= got <= hi_k):
                 out.append(f'children of {n.full_name} are not the assets its reaches expressions denote')
             for c in n.children:
-                if not any(p is n for p in c.parents): out.append(f'child link of {n.full_name} has no converse parent link')
+                if sum(1 for x in n.children if x is c) != sum(1 for p in c.parents if p is n):
+                    out.append(f'child links of {n.full_name} are not mirrored one for one by parent links')
             for p in n.parents:
-                if not any(c is n for c in p.children): out.append(f'parent link of {n.full_name} has no converse child link')
+                if sum(1 for x in n.parents if x is p) != sum(1 for c in p.children if c is n):
+                    out.append(f'parent links of {n.full_name} are not mirrored one for one by child links')
     return out
 
 
@@ -223,7 +242,7 @@ def observe(impl, lg, m, regen=None):
         signal.signal(signal.SIGALRM, old)
     idx = {id(n): i for i, n in enumerate(g.nodes)}
     def hs(l):
-        return sorted({idx.get(id(x), -1) for x in l})
+        return sorted(idx.get(id(x), -1) for x in l)        # with multiplicity: one entry per edge
     def dz(x):
         if x is None: return None
         y = float(x) * 1024
@@ -251,6 +270,9 @@ def ops_language():
         'sback': CO(CO(F('pa'), D(F('qa'), F('pa'))), S('t')),
     }
     steps = [LG.step('t', 'or')] + [LG.step(n, 'or', reaches=[e]) for n, e in exprs.items()]
+    # one step reaching the same child through two expressions (parallel edges)
+    steps.append(LG.step('sdup', 'or', reaches=[CO(F('pb'), S('t')), CO(F('pb'), S('t'))]))
+    steps.append(LG.step('sdup2', 'and', reaches=[CO(F('pb'), S('t')), CO(U(F('pb'), F('qb')), S('t'))]))
     steps.append(LG.step('ex', 'exist', requires=[I(F('pb'), F('qb'))]))
     return LG.lang([LG.asset('Aa', None, steps, variables=[('vv', CO(F('pb'), F('qb')))]), LG.asset('Bb', 'Aa'),
                     LG.asset('Cc', 'Bb'), LG.asset('Dd', 'Cc')],
@@ -357,6 +379,8 @@ def check(pid: str, tier: str, seed: int):
             obs, g = observe(impl, c['lg'], c['m'], c.get('regen'))
             v = MG.view(c['m'])
             pv = property_violations('C02' if pid == 'C09' else pid, c['L'], v, g if g is not None else obs)
+            if pid == 'C09' and g is not None:
+                pv += property_violations('C09', c['L'], v, g)
             if c.get('regen') is not None and g is not None:
                 if len(g._full_name_to_node) != len(g.nodes) or len(g._id_to_node) != len(g.nodes) or g.attackers or g._id_to_attacker \
                         or g.next_attacker_id != 0 or g.next_node_id != len(g.nodes):
